@@ -37,9 +37,16 @@ RULE = (
     "get_records_matching, num_matches and subset. The history sub-check applies 1-8 operations (add_feature, update with/without "
     "seqids, union with another db or itself, subset, re-wrapping via db=, deepcopy, pickle, to_rich_dict/from_dict, to_json/"
     "deserialise, write+reopen) and compares the full record multiset after every step, and that receivers/arguments are unchanged. "
-    "The gff-blocks sub-check loads GFF text with a small lines_per_block. Non-trivial (queries) = some query with >= 2 conditions "
+    "The gff-blocks sub-check loads GFF text with a small lines_per_block. The loaders sub-check writes 1-3 flat files (GFF3 files of 0-5 "
+    "features with IDs unique over all files and ID-less rows in several files; GenBank files holding 1-3 LOCUS records of 1-3 features each) "
+    "and builds one db from them through load_annotations(path=glob pattern), load_annotations(path=file, db=previous) file after file "
+    "(optionally starting from a BasicAnnotationDb of user features), union / update of per-file dbs, rich_parser(path, db=shared db) and "
+    "load_unaligned_seqs(path).annotation_db, with optional seqids= (str or list), lines_per_block= and write_path= (the written file is "
+    "reopened), adds 0-3 user features, optionally passes the db through deepcopy / pickle / to_rich_dict / to_json / write+reopen, and "
+    "then asks one query per seqid plus 4 generated queries through the same four entry points; the expected content is the concatenation "
+    "of the per-file record lists filtered by seqids. Non-trivial (queries) = some query with >= 2 conditions "
     "and >= 2 candidate records whose envelope touches or straddles a window end; (histories) = a merge or subset plus a "
-    "serialisation step on >= 2 records; distinct = distinct case encodings."
+    "serialisation step on >= 2 records; (loaders) = >= 2 files or a multi-LOCUS file with text-route records on >= 2 seqids; distinct = distinct case encodings."
 )
 ASSUMPTIONS = [
     "windows are matched by envelope [min start, max stop) of a feature (the db start/stop columns), not per span; windows are non-empty (start < stop) and features non-empty",
@@ -52,6 +59,11 @@ ASSUMPTIONS = [
     "GenBank features are wholly on one strand; unnamed features get a generated name that is not compared; GenBank attribute dicts are not compared field by field",
     "count_distinct rows are summed over tables before comparison",
     "only class combinations documented as compatible are driven: update(other) when other's tables are a subset of the receiver's; union for every pair except Gff x Genbank",
+    "loading several files, or one file after another into an existing db, gives the concatenation of what each file gives alone (load_annotations: 'We DO NOT check if a provided db already contains records'; tests/test_core/test_annotation_db.py::test_load_annotations_multi); every LOCUS record of a GenBank file contributes its features under its own locus name",
+    "load_annotations(seqids=...) keeps exactly the records whose seqid (GFF column 1 / GenBank LOCUS name) is listed, for both formats (the docstring restricts only lines_per_block to GFF); seqids is a non-empty str or list",
+    "GFF IDs are unique over all files given to one db: whether rows with one ID in different files are one feature is not documented (a glob load merges them, loading file after file does not); rows without ID are never merged with anything ('Only records which have an ID field in the attributes get merged')",
+    "a db of a different class passed as db= is copied and left unchanged, a db of the same class is bound and extended (BasicAnnotationDb.__init__ docstring); write_path= is only given when no db= is given (with db= the source of that db is kept) and the file is then reopened with the class constructor (test_load_anns_with_write)",
+    "load_unaligned_seqs on a GenBank file is driven with the old-style collection only (moltype='dna'); its annotation_db must hold every locus",
     "to_rich_dict/from_dict and to_json round trips, and re-wrapping into a richer class via db=, are only asserted for databases whose source is ':memory:' (a db reopened from a file keeps source=<path>; from_dict and GffAnnotationDb(db=...) would reopen and extend that file); this is tracked conservatively through deepcopy, pickle, union and re-wrapping",
 ]
 
@@ -99,10 +111,10 @@ def _user_feat(draw, lat, seqids, names):
     }
 
 
-def _gff_feats(draw, lat, seqids, n, base=0):
+def _gff_feats(draw, lat, seqids, n, base=0, named_pc=85):
     feats = []
     for i in range(n):
-        named = _p(draw, 85)
+        named = _p(draw, named_pc)
         f = {
             "seqid": draw(st.sampled_from(seqids)),
             "biotype": draw(st.sampled_from(BIOTYPES)),
@@ -302,7 +314,7 @@ def loader_cases(draw):
     for _ in range(nfiles):
         if kind == "gff":
             n = draw(st.integers(0, 5))
-            feats, rows = _gff_feats(draw, lat, seqids, n, base=base)  # IDs are unique over all files
+            feats, rows = _gff_feats(draw, lat, seqids, n, base=base, named_pc=70)  # IDs are unique over all files
             base += n
             files.append({"feats": feats, "rows": rows})
         else:
@@ -1202,7 +1214,7 @@ FUZZ = {
 
 META = {
     "technique": "Hypothesis-generated record sets, query lattices and operation histories against a linear-scan list model; GFF3/GenBank text written by the harness with independent coordinate arithmetic",
-    "level_text": "Each run builds about 1 500 databases of the three classes (user-added, GFF3 text, GenBank text) on span lattices where envelopes abut, nest and straddle, asks 8 queries each over the cross-product of optional arguments, window kinds and allow_partial through four query entry points, and replays about 400 histories of merge / subset / copy / serialise operations, comparing record multisets with a plain list model after every step.",
-    "level_note": "Windows are non-empty and matched by feature envelope; attribute matching is restricted to wildcard-free lower-case text; incompatible class combinations (documented TypeError) and rich-dict round trips of file-backed databases are not driven; get_feature_children/parent are not checked.",
+    "level_text": "Each run builds about 1 500 databases of the three classes (user-added, GFF3 text, GenBank text) on span lattices where envelopes abut, nest and straddle, asks 8 queries each over the cross-product of optional arguments, window kinds and allow_partial through four query entry points, and replays about 400 histories of merge / subset / copy / serialise operations, comparing record multisets with a plain list model after every step. About 600 further databases are assembled from 1-3 flat files (multi-LOCUS GenBank files, several GFF3 files) through six loading routes with seqids / lines_per_block / write_path options, optionally round-tripped through a serialisation, and queried the same way.",
+    "level_note": "Windows are non-empty and matched by feature envelope; attribute matching is restricted to wildcard-free lower-case text; incompatible class combinations (documented TypeError) and rich-dict round trips of file-backed databases are not driven; get_feature_children/parent are not checked; GFF IDs shared between files and GenBank files with duplicate LOCUS names are not generated.",
     "design_ref": "DESIGN.md section 1, C17",
 }
